@@ -1459,7 +1459,7 @@ class Executor:
             k = z3.Int(fresh_name("k"))
             xs = lift(x)
             return z3.Exists([k], z3.And(k >= 0, k < container.ln, z3.Select(container.at, k) == xs))
-        elif isinstance(container, _SDictLike):
+        elif isinstance(container, _SDictLike) or (isinstance(container, Custom) and hasattr(container, "contains")):
             return container.contains(self, x)
         elif isinstance(container, PObj):
             r = self.call_value(BoundMethod(container, "__contains__"), [x], {}, line)
